@@ -1334,6 +1334,8 @@ run_case(Ctx& ctx)
       tot += nblocks[k];
     }
   long idx = ctx.idx;
+  if (std::getenv("VERIF_C11_SKIP_EXH"))
+    idx += tot; // memcheck stage: random histories only
   if (idx < tot)
     {
       int k = 0;
